@@ -129,8 +129,9 @@ impl Prop for C09 {
         let h2 = r.chance(1, 4);
         let (req, req_head_len, resp, resp_head_len) = if h2 {
             let self_ref = r.chance(1, 3);
-            let (rq, st) = http2::connection_start(r, &http2::Opts { request: true, hostile: http2::Hostile::None, fancy_headers: false, odd_order: false, self_ref });
-            let (rs, st2) = http2::connection_start(r, &http2::Opts { request: false, hostile: http2::Hostile::None, fancy_headers: false, odd_order: false, self_ref: false });
+            let cont = r.chance(1, 6);
+            let (rq, st) = http2::connection_start(r, &http2::Opts { request: true, hostile: http2::Hostile::None, fancy_headers: false, odd_order: false, self_ref, continuation: cont });
+            let (rs, st2) = http2::connection_start(r, &http2::Opts { request: false, hostile: http2::Hostile::None, fancy_headers: false, odd_order: false, self_ref: false, continuation: false });
             (rq, st.head_end, rs, st2.head_end)
         } else {
             let rq = http1::request(r, 300);
